@@ -215,7 +215,8 @@ __ndim_ht(const unsigned int *cal, size_t nm, unsigned int y, unsigned int m)
 /* return the number of days in (hijri) month M in (hijri) year Y. */
 	const unsigned int i = (y - 1U) * 12U + (m - 1U) - SM(cal);
 
-	if (UNLIKELY(i + 1U >= nm)) {
+	if (UNLIKELY(i >= nm || i + 1U >= nm)) {
+		/* before the first or after the last month we know about */
 		return 0U;
 	}
 	return MT(cal)[i + 1U] - MT(cal)[i + 0U];
